@@ -245,6 +245,15 @@ func (p c12) start(c *core.Ctx) {
 			world.PPCoreOf(pp).Supply = supplied
 		}
 	}
+	// a post-processor component that another, earlier post-processor decorates with an object that is not a
+	// post-processor itself (a decorator for a business interface): it still takes part in the sequence
+	if len(plain) > 0 && supplier == "" && c.Rng.Intn(4) == 0 {
+		pp := extra[plain[c.Rng.Intn(len(plain))]]
+		if nm := world.PPCoreOf(pp).Nm; !lazyPP[nm] {
+			extra = append(extra, &world.EarlySubstituter{Substituter: world.NewSubstituter(map[string]world.SubPlan{nm: {After: true}})})
+			c.Count("starts_with_a_decorated_post_processor_component", 1)
+		}
+	}
 	c.Rng.Shuffle(len(extra), func(i, j int) { extra[i], extra[j] = extra[j], extra[i] })
 	nl := c.Rng.Intn(7)
 	var loaders []configure.Loader
